@@ -1011,8 +1011,9 @@ func vfC14GitPart(t *testing.T, r *vfRand, n int, tmp string) {
 			}
 			want := want
 			if nRejected > 0 && !vfC14SameCounts(want, got) {
-				// paths with a component go-git's walker refuses: a file there is indexed under the name "", a directory is
-				// not descended into.  Reported under its own key; everything else must still be exact.
+				// paths with a component go-git's TreeWalker refuses (the walker CollectFiles used up to /repo 39be1f9: a file
+				// there was indexed under the name "", a directory was not descended into).  A discrepancy confined to such
+				// paths is reported under its own key; everything else must still be exact.
 				wantClean, gotClean := map[string]int{}, map[string]int{}
 				for k, c := range want {
 					if name, _, _ := strings.Cut(k, "\x00"); !vfC14PathRejected(name) {
@@ -1116,7 +1117,8 @@ func vfC14GitPart(t *testing.T, r *vfRand, n int, tmp string) {
 }
 
 // vfC14DeepPart: one branch whose tree is one directory level deeper than go-git's walker accepts (maxTreeDepth = 1024).
-// IndexGitRepo must come back (with the two documents, or with an error); it is run under a watchdog.
+// IndexGitRepo must come back (with the two documents, or with an error — the current code refuses more than 1024 nested
+// directories); it is run under a watchdog because up to /repo 8664339 it did not return.
 func vfC14DeepPart(t *testing.T, tmp string) {
 	const depth = 1025
 	caseDir, err := os.MkdirTemp(tmp, "c14d-")
@@ -1182,7 +1184,7 @@ func vfC14DeepPart(t *testing.T, tmp string) {
 		}
 	case <-time.After(wait):
 		replay["waited_seconds"] = int(wait / time.Second)
-		vfOracleFail("git:deep-tree-hang", "IndexGitRepo does not return on a tree with 1025 nested directories (TreeWalker.Next keeps returning ErrMaxTreeDepth, CollectFiles only tests for io.EOF)", replay)
+		vfOracleFail("git:deep-tree-hang", "IndexGitRepo does not return on a tree with 1025 nested directories", replay)
 	}
 }
 
